@@ -211,6 +211,15 @@ func code(n int) codes.Code {
 	return codes.Code(1 + n%20)
 }
 
+// HTTPCode maps a drawn integer to an HTTP code: mostly the integer itself,
+// with the boundary value 0 (an all-default payload on the wire) at 1/20.
+func HTTPCode(n int) int {
+	if n%20 == 7 {
+		return 0
+	}
+	return n
+}
+
 // Code is code() for other packages.
 func Code(n int) codes.Code { return code(n) }
 
@@ -406,7 +415,7 @@ func init() {
 	def(WCombine, KindInfo{Name: "errors.CombineErrors", Arity: Wrap, Groups: GLib | GSecondary, NHid: 1, Weight: 2,
 		build: func(n *Node, k, hid []error) error { return errors.CombineErrors(k[0], hid[0]) }})
 	def(WHTTP, KindInfo{Name: "exthttp.WrapWithHTTPCode", Arity: Wrap, Groups: GLib | GAnnot, NInts: []int{600}, Weight: 3,
-		build: func(n *Node, k, _ []error) error { return exthttp.WrapWithHTTPCode(k[0], n.N[0]) }})
+		build: func(n *Node, k, _ []error) error { return exthttp.WrapWithHTTPCode(k[0], HTTPCode(n.N[0])) }})
 	def(WGrpcCode, KindInfo{Name: "extgrpc.WrapWithGrpcCode", Arity: Wrap, Groups: GLib | GGrpc | GAnnot, NInts: []int{21}, Weight: 3,
 		build: func(n *Node, k, _ []error) error { return extgrpc.WrapWithGrpcCode(k[0], code(n.N[0])) }})
 	def(WStatusWrap, KindInfo{Slots: "S", Name: "crdbstatus.WrapErr", Arity: Wrap, Groups: GLib | GGrpc | GStack | GAnnot, NInts: []int{20}, Weight: 2,
@@ -550,20 +559,30 @@ func fmtArgs(lit Str, args []Arg, hid []error) (string, []interface{}) {
 	f := escFmt(lit.V)
 	var a []interface{}
 	for _, x := range args {
+		verb := x.Verb
 		switch x.Kind {
 		case ArgUnsafeStr:
-			f += " %s"
+			if verb == "" {
+				verb = "%s"
+			}
 			a = append(a, x.S.V)
 		case ArgSafeStr:
-			f += " %s"
+			if verb == "" {
+				verb = "%s"
+			}
 			a = append(a, errors.Safe(x.S.V))
 		case ArgInt:
-			f += " %d"
+			if verb == "" {
+				verb = "%d"
+			}
 			a = append(a, x.N)
 		case ArgErr:
-			f += " %v"
+			if verb == "" {
+				verb = "%v"
+			}
 			a = append(a, hid[x.Hid])
 		}
+		f += " " + verb
 	}
 	return f, a
 }
